@@ -6,6 +6,9 @@ import time
 
 def _has(prop, scenario, key):
     try:
+        from . import bootstrap
+
+        bootstrap.reset_process_state()
         sim = prop.execute(scenario)
     except Exception:
         return False
